@@ -171,7 +171,9 @@ def handle (op : String) (j : Json) : Except String Json := do
     let f := fun (d : List (List Nat)) => Json.mkObj [("dict", natListList d), ("get", natListList d)]
     let p' := pts.map (fun x => (encodeIdx ign x.1, x.2.toNat))
     let ps := pts.map (fun x => (rankOf ign x.1, x.2.toNat))
-    pure (reply (f (binnedCounts b isz p')) (some (f (specBinned b isz ps))))
+    let inside := pts.all (fun x => decide (0 ≤ x.2) && decide (x.2.toNat < sizes.getD x.1 0) && !(ign.getD x.1 false))
+    let m := if pts.all (fun x => decide (0 ≤ x.2)) then binnedChecked b isz p' else none
+    pure (reply (optJ f m) (some (if inside then f (specBinned b isz ps) else raised)))
   | "maploc" =>
     let ivs ← getIvs j
     let pts ← getPairs j "pts"
